@@ -26,11 +26,17 @@ from harness.translate import gen as G
 from harness.translate import gen_c02
 
 PROPERTY = "C02"
-LEAN_MODULES = ["SigpyVerif.Props.C02", "SigpyVerif.Props.C02Tree", "SigpyVerif.Gen.EffectsOk"]
+LEAN_MODULES = ["SigpyVerif.Props.C02", "SigpyVerif.Props.C02Tree", "SigpyVerif.Props.C02Leaves", "SigpyVerif.Gen.EffectsOk"]
 STATIC_THEOREMS = ["SigpyVerif.C02." + t for t in [
     "analyze_sound", "noMutation_sound", "noMutation_sound_entry", "ret_sound", "ret_fresh_disjoint",
     "denote_linear", "conj_sandwich_linear", "conj_half_antilinear", "conj_half_not_linear",
     "history_determinism", "history_equal_inputs_equal_outputs", "caching_operator_not_deterministic",
+    "writesOnly_sound", "writesOnly_nil",
+    # Props/C02Leaves.lean: no leaf hypothesis; imported leaf classes; histories of operator algebra
+    "act_of_denote", "act_linear", "tree_denotation_function", "tree_linear_no_leaf_hypothesis", "denote_ext",
+    "ext_tree_linear", "conv_leaf_linear", "wave_leaf_linear", "matmul_leaf_linear", "conv1At_linear_data",
+    "conv1At_linear_filter", "fft_leaf_linear", "build2_prefix", "stepAlg_prefix", "stepAlg_keeps",
+    "algebra_history_deterministic", "algebra_history_equal_objects", "algebra_history_outputs_linear",
     # Props/C02Tree.lean: whole operator trees of the C01 expression language
     "applyF_linear", "lin_comp", "lin_add", "lin_conj", "denote_comp_act", "denote_add_act", "denote_conj_act",
     "denote_hstack_act", "denote_vstack_act", "denote_diag_act", "tree_linear", "tree_additive_homogeneous",
@@ -65,13 +71,23 @@ def _thm(key, suffix="_ok"):
     return "SigpyVerif.Gen.Effects.prog_" + key.replace(".", "_") + suffix
 
 
+# apps (sigpy/app.py, sigpy/mri/app.py): obligation `writesOnly prog [self, in/out solution / own work arrays] = true`
+EXPECTED_OK += ["app.LinearLeastSquares." + m for m in [
+    "_get_ConjugateGradient", "_get_GradientMethod", "_get_GradientMethod.gradf", "_get_PrimalDualHybridGradient",
+    "_get_ADMM", "_get_ADMM.minL_x", "_get_ADMM.minL_v", "objective"]] + ["mri.app." + m for m in [
+    "_estimate_weights", "SenseRecon.__init__", "L1WaveletRecon.__init__", "L1WaveletRecon.__init__.g",
+    "TotalVariationRecon.__init__", "TotalVariationRecon.__init__.g", "JsenseRecon._get_data", "JsenseRecon._get_vars",
+    "JsenseRecon._get_alg", "JsenseRecon._get_alg.min_mps_ker", "JsenseRecon._get_alg.min_img_ker", "JsenseRecon._output",
+    "EspiritCalib.__init__", "EspiritCalib.__init__.forward", "EspiritCalib.__init__.normalize", "EspiritCalib._output"]]
 THEOREMS = list(STATIC_THEOREMS) + [_thm(k) for k in EXPECTED_OK]
 _META = {}
 
 
 def translate(ctx):
     # Block/UtilFormulas/LinopFormulas/Interp: imported (through Model/C01) by Props/C02Tree
-    G.regenerate(ctx, ["Effects", "EffectsOk", "Block", "UtilFormulas", "LinopFormulas", "Interp"])
+    # LinopAdjoint / Conv* / Fourier / C10Formulas: imported (through Props/C01Ext, C01Fft, C01Wave) by Props/C02Leaves
+    G.regenerate(ctx, ["Effects", "EffectsOk", "Block", "UtilFormulas", "LinopFormulas", "Interp", "LinopAdjoint",
+                       "ConvFormulas", "ConvWiring", "ConvLinops", "ConvParams", "Fourier", "C10Formulas"])
     g = gen_c02._LAST.get("gen")
     if g is None:
         return
@@ -92,12 +108,19 @@ def translate(ctx):
                "in-scope functions without an IR program / obligation: %s" % missing)
     ctx.notes.append("needsRuntime (analysis cannot prove clean; runtime stream only): %s" % json.dumps(gen_c02.NEEDS_RUNTIME))
     ctx.notes.append("in place by documented contract: %s" % json.dumps(gen_c02.INPLACE_BY_CONTRACT))
-    ctx.notes.append("tree linearity is a theorem (Props/C02Tree: tree_linear, by structural induction over C01.Expr) for the "
-                     "C01 expression language: 19 leaf classes (Identity, Reshape, Transpose, Resize, Flip, Circshift, "
-                     "Downsample, Upsample, Sum, Tile, Slice, Embed, Multiply, MatMul, RightMatMul, ArrayToBlocks, "
-                     "BlocksToArray, Interpolate, Gridding) + combinators Compose/Add/Conj/Hstack/Vstack/Diag, whose "
-                     "denotation is tied to the real operators' matrices by the C01 correspondence; linearity of "
-                     "FFT/NUFFT/wavelet/convolution leaves remains runtime-validated by this check's linearity stream")
+    ctx.notes.append("apps without an IR program (runtime stream only): %s" % json.dumps(gen_c02.APP_NEEDS_RUNTIME))
+    ctx.notes.append("app obligations (writesOnly prog [allowed] = true, sound by writesOnly_sound): allowed origins per class %s; "
+                     "trusted contract of the algorithm constructors %s" % (json.dumps(gen_c02.APP_ALLOWED), json.dumps(gen_c02.ALG_WRITES)))
+    ctx.notes.append("tree linearity is a theorem with no leaf hypothesis (Props/C02Tree: tree_linear by structural induction over "
+                     "C01.Expr; Props/C02Leaves: act_linear / tree_linear_no_leaf_hypothesis for every tree, well-formed or not): "
+                     "19 exact leaf classes (Identity, Reshape, Transpose, Resize, Flip, Circshift, Downsample, Upsample, Sum, Tile, "
+                     "Slice, Embed, Multiply, MatMul, RightMatMul, ArrayToBlocks, BlocksToArray, Interpolate, Gridding), the ext "
+                     "leaves FFT / IFFT (C05 table: fft_leaf_linear), ConvolveData / ConvolveDataAdjoint / ConvolveFilter / "
+                     "ConvolveFilterAdjoint (C08 model, 1-D single channel: conv_leaf_linear, conv1At_linear_data/_filter), Wavelet / "
+                     "InverseWavelet (C10 model, 1-D real: wave_leaf_linear) + combinators Compose/Add/Conj/Hstack/Vstack/Diag, whose "
+                     "denotation is tied to the real operators' matrices by the C01 correspondence and, along histories of operator "
+                     "algebra on live objects, by this check's tree-denotation stream; linearity of NUFFT, Kaiser-Bessel "
+                     "interpolation, N-d / complex wavelets and multi-channel / N-d convolutions remains runtime-validated")
 
 
 # ================================================================================================
@@ -731,6 +754,11 @@ def check_linop(spec, claims=None):
         comb = (a * xa + ya).astype(dtype)
         l = apply(A, comb, "A(a x + y)")
         r1, r2 = apply(A, xa, "A(x)"), apply(A, ya, "A(y)")
+        if real_dtype and not isinstance(l, Exception) and any(isinstance(v, Exception) for v in (r1, r2)):
+            # a LEAF class may restrict the dtypes it accepts (conv.py needs data and filter of one kind); not judged
+            # here.  What IS judged (check_hist): a combinator must accept a real / integer array whenever the
+            # combination of its parts' outputs is defined for it
+            spec["_rejects_real"] = True
         if not any(isinstance(v, Exception) for v in (l, r1, r2)):
             rhs = a * r1.astype(np.complex128) + r2.astype(np.complex128)
             lhs = l.astype(np.complex128)
@@ -1138,18 +1166,596 @@ def check_lls(spec, claims=None):
     return viol, [], dict(cls="LLS")
 
 
-CHECKERS = {"linop": check_linop, "prox": check_prox, "fn": check_fn, "lls": check_lls}
+# ================================================================================================
+# histories of operator ALGEBRA on live objects; tree shapes come from the C01 tree generator
+# (the expression language of Props/C02Tree.lean), so the Lean denotation of (tree, input) is available
+# ================================================================================================
+HIST_DTYPES = ["complex128", "float64", "float32", "int64", "complex64"]
+# leaf classes whose _apply is plain numpy indexing / arithmetic with numpy's dtype promotion: these are the trees
+# on which integer-typed arrays are used as inputs (the numba kernels of interp / block are typed by the input array)
+HIST_INT_SAFE = {"id", "reshape", "transpose", "resize", "flip", "circshift", "down", "up", "sum", "tile", "slice",
+                 "embed", "mul", "matmul", "rmatmul"}
 
 
-def run_spec(spec, claims=None):
+def _hist_extra(rng, sh):
+    """square operator on `sh` outside the exact model: complex-valued transform, or a multiplier whose values are
+    not representable in single precision, in float32 / float64 / complex64 / complex128 storage, or a float /
+    complex scalar.  -> (label, zero-argument constructor of an equal object)"""
+    import sigpy as sp
+    kind = rng.choice(["fft", "ifft", "third:complex128", "third:float64", "third:complex64", "third:float32",
+                       "scalar:0.5", "scalar:c", "scalar:third"])
+    if kind == "fft":
+        ax = _axes(rng, len(sh))
+        return "FFT", (lambda: sp.linop.FFT(sh, axes=ax))
+    if kind == "ifft":
+        ax = _axes(rng, len(sh))
+        return "IFFT", (lambda: sp.linop.IFFT(sh, axes=ax))
+    if kind.startswith("third"):
+        dt = np.dtype(kind.split(":")[1])
+        arr = (gint(rng, sh, np.complex128 if dt.kind == "c" else np.float64, 1, 4) / 3.0).astype(dt)
+        return "Multiply<%s/3>" % dt, (lambda: sp.linop.Multiply(sh, arr))
+    c = dict([("scalar:0.5", 0.5), ("scalar:third", 1.0 / 3)]).get(kind, complex(rng.randint(-2, 2), rng.choice([-1, 1, 2])))
+    return "Multiply<%r>" % (c,), (lambda: sp.linop.Multiply(sh, c))
+
+
+class _HEnt:
+    def __init__(self, idx, op, rec, spec, label, xs, exact, parts_exp=None):
+        self.idx, self.op, self.rec, self.spec, self.label, self.xs, self.exact = idx, op, rec, spec, label, xs, exact
+        self.first = [None] * len(xs)
+        self.exp = parts_exp or [None] * len(xs)
+        self.cls = type(op).__name__
+        self.captured = Snapshot(walk_arrays(op, "e%d" % idx))
+
+
+def _hist_make(rec, get):
+    """the operator a recipe denotes, from live operands (`get(i)` = the live object) or rebuilt from scratch"""
+    import sigpy as sp
+    from harness.props import c01 as C1
+    t = rec[0]
+    if t == "c01":
+        return C1.build(rec[1])
+    if t == "extra":
+        return rec[2]()
+    if t == "add":
+        return get(rec[1]) + get(rec[2])
+    if t == "sub":
+        return get(rec[1]) - get(rec[2])
+    if t == "addn":
+        return sp.linop.Add([get(i) for i in rec[1]])
+    if t == "mul":
+        return get(rec[1]) * get(rec[2])
+    if t == "compn":
+        return sp.linop.Compose([get(i) for i in rec[1]])
+    if t == "scal":
+        return rec[1] * get(rec[2])
+    if t == "rscal":
+        return get(rec[2]) * rec[1]
+    if t == "neg":
+        return -get(rec[1])
+    if t == "conj":
+        return sp.linop.Conj(get(rec[1]))
+    if t == "hstack":
+        return sp.linop.Hstack([get(i) for i in rec[2]], axis=rec[1])
+    if t == "vstack":
+        return sp.linop.Vstack([get(i) for i in rec[2]], axis=rec[1])
+    if t == "diag":
+        return sp.linop.Diag([get(i) for i in rec[2]], oaxis=rec[1], iaxis=rec[1])
+    raise KeyError(t)
+
+
+def _hist_spec(rec, ents):
+    """C01 expression (model language) of a recipe, or None when a part is outside the model"""
+    t = rec[0]
+    if t == "c01":
+        from harness.props import c01 as C1
+        return rec[1] if C1.in_model(rec[1]) else None
+    if t == "extra":
+        return None
+    sub = lambda i: ents[i].spec
+    g = lambda z: [z.real, z.imag] if isinstance(z, complex) else [z, 0]
+    if t in ("add", "sub", "mul"):
+        a, b = sub(rec[1]), sub(rec[2])
+        return None if a is None or b is None else [dict(add="add", sub="sub", mul="comp")[t], a, b]
+    if t in ("addn", "compn"):
+        ss = [sub(i) for i in rec[1]]
+        if any(s is None for s in ss):
+            return None
+        out = ss[0]
+        for s in ss[1:]:
+            out = ["add" if t == "addn" else "comp", out, s]
+        return out
+    if t in ("scal", "rscal"):
+        a = sub(rec[2])
+        c = rec[1]
+        if a is None or any(float(v) != int(v) for v in g(c)):
+            return None
+        return ["scale" if t == "scal" else "rscale", [int(v) for v in g(c)], a]
+    if t in ("neg", "conj"):
+        a = sub(rec[1])
+        return None if a is None else [t, a]
+    if t in ("hstack", "vstack"):
+        ss = [sub(i) for i in rec[2]]
+        return None if any(s is None for s in ss) else [t, rec[1], ss]
+    if t == "diag":
+        ss = [sub(i) for i in rec[2]]
+        return None if any(s is None for s in ss) else ["diag", rec[1], rec[1], ss]
+    return None
+
+
+def _hist_label(rec, ents):
+    t = rec[0]
+    if t == "c01":
+        from harness.props import c01 as C1
+        return "tree(%s|%s)" % (",".join(C1.node_tags(rec[1])) or "leaf", ",".join(lf[1] for lf in C1.leaves(rec[1])))
+    if t == "extra":
+        return rec[1]
+    e = lambda i: "e%d" % i
+    if t in ("add", "sub", "mul"):
+        return "%s %s %s" % (e(rec[1]), dict(add="+", sub="-", mul="*")[t], e(rec[2]))
+    if t in ("addn", "compn"):
+        return "%s([%s])" % ("Add" if t == "addn" else "Compose", ", ".join(e(i) for i in rec[1]))
+    if t == "scal":
+        return "%r * %s" % (rec[1], e(rec[2]))
+    if t == "rscal":
+        return "%s * %r" % (e(rec[2]), rec[1])
+    if t == "neg":
+        return "-" + e(rec[1])
+    if t == "conj":
+        return "Conj(%s)" % e(rec[1])
+    return "%s([%s], axis=%r)" % (t.capitalize(), ", ".join(e(i) for i in rec[2]), rec[1])
+
+
+def _close(got, want, exact_int=False):
+    """(A op B)(x) against the same combination of the parts' outputs: both sides round the same parts, so the
+    only admissible difference is the rounding of the final additions in the precision of `want`:
+    1e4 x eps(want.dtype) relative to the size of the terms (a dropped / wrong / extra term is O(1), an accumulator
+    kept in single precision where the parts are double is ~6e-8 relative)"""
+    got, want = np.asarray(got), np.asarray(want)
+    if got.shape != want.shape:
+        return False, None, None
+    if want.size == 0:
+        return True, 0.0, 0.0
+    if want.dtype.kind in "iub":
+        err = float(np.max(np.abs(got.astype(np.complex128) - want.astype(np.complex128))))
+        return err == 0.0, err, 0.0
+    eps = float(np.finfo(want.dtype).eps)
+    tol = 1e4 * eps * max(1.0, float(np.max(np.abs(want))))
+    err = float(np.max(np.abs(got.astype(np.complex128) - want.astype(np.complex128))))
+    return err <= tol, err, tol
+
+
+def check_hist(spec, claims=None, driver=None):
+    """one history: a pool of operators with common input/output shapes (a C01-generated tree, same-shape variants,
+    inexact / complex-valued extras) is combined by operator algebra re-using LIVE objects as operands
+    (+, -, *, Add, Compose, scalar *, -, Conj, Hstack, Vstack, Diag, .H, .N); every object is applied to fixed
+    inputs of every dtype when it is built, in between, and at the end.  Oracles, for every object and input:
+      (1) every application returns the bits of the object's FIRST application to that input;
+      (2) the output equals the same combination of its parts' outputs (sum of parts, composition, conjugate sandwich,
+          concatenation) computed by numpy from the parts' own outputs at construction time;
+      (3) an equal object built from scratch (same tree, equal parameters) returns the same bits;
+      (4) real / integer-typed inputs are accepted wherever the same values in a complex array are, and
+          A(a x + y) = a A(x) + A(y) for complex a and real / integer x, y;
+      (5) no input and no captured array changes;
+      (6) [driver] the first output equals M x for the matrix M the Lean `denote` gives for the tree."""
+    import sigpy as sp
+    from harness.props import c01 as C1
+    viol, dis = [], []
+    rng = random.Random(spec["seed"])
+    depth = spec["k"]
+    n_events = spec.get("n_events", 10)
+    dtypes = spec.get("dtypes", HIST_DTYPES)
+    log = []
+    with warnings.catch_warnings():
+        warnings.simplefilter("ignore")
+        try:
+            if rng.random() < spec.get("p_opaque", 0.2):    # base outside the exact model: FFT / NUFFT / wavelet / convolution / MRI leaves in a small tree
+                s0, A0 = C1.wrap_opaque(rng, *C1.gen_opaque(rng))
+                if C1.prod(A0.ishape) > 64 or C1.prod(A0.oshape) > 64:
+                    s0, A0 = C1.gen_tree(rng, 1, None)
+            else:
+                s0, A0 = C1.gen_tree(rng, max(0, min(depth, 4) - 2), None)
+        except Exception as e:
+            return viol, dis, dict(skipped="build: %r" % (e,))
+        ish, osh = C1.ishp(A0), C1.oshp(A0)
+        square = ish == osh
+        int_ok = all(lf[1] in HIST_INT_SAFE for lf in C1.leaves(s0))
+        dts = [d for d in dtypes if int_ok or np.dtype(d).kind != "i"]
+        xs = [gint(rng, ish, np.dtype(d)) for d in dts]
+        xsnap = Snapshot([("x[%s]" % d, x) for d, x in zip(dts, xs)])
+        ents = []
+
+        def V(ent, kind, what, observed=None, expected=None):
+            if any(v["key"].endswith(":" + kind) for v in viol):
+                return
+            viol.append(dict(key="C02:history:%s:%s" % (ent.cls, kind),
+                             what="e%d = %s (%s) %s; history: %s" % (ent.idx, ent.label, ent.op, what, "; ".join(log[-14:])),
+                             observed=observed, expected=expected))
+
+        def run(ent, j, x=None, record=True):
+            x = ent.xs[j] if x is None else x
+            before = snap(x)
+            try:
+                y = ent.op(x)
+            except Exception as e:
+                y = e
+            if snap(x) != before:
+                V(ent, "mutates-input", "wrote into its input array", short(x), "input bytes unchanged")
+            if isinstance(y, Exception):
+                if record and ent.first[j] is not None:
+                    V(ent, "changed-after-reuse", "raises on the %s input it accepted at its first application: %s: %s"
+                      % (x.dtype, type(y.__cause__ or y).__name__, str(y.__cause__ or y)[:160]), repr(y)[:200], short(ent.first[j][1]))
+                elif record and ent.exp[j] is not None and x.dtype.kind != "c":
+                    # every part accepts this array (the combination of the parts' outputs is defined) and, below, the
+                    # object accepts the same values in a complex array: A(a x + y) is defined, a A(x) + A(y) is not
+                    try:
+                        ent.op(x.astype(np.complex128))
+                    except Exception:
+                        return None
+                    V(ent, "rejects-real-input", "raises on a %s array although each of its parts accepts that array and it "
+                      "accepts the same values in a complex128 array: %s: %s"
+                      % (x.dtype, type(y.__cause__ or y).__name__, str(y.__cause__ or y)[:160]), repr(y)[:200], short(ent.exp[j]))
+                return None
+            y = np.asarray(y)
+            if y.dtype.kind in "fc" and y.size and not np.all(np.isfinite(y)) and np.all(np.isfinite(x)):
+                # inf / nan out of a finite input: A(0 * x) = 0 * A(x) fails; reported once under a key that names the
+                # leaf classes of the tree and the input dtype, and this (object, input) is not judged further
+                kinds = set(lf[1] for lf in C1.leaves(s0))
+                cause = "nufft" if kinds & {"nufft", "nufftadj", "sense", "convsense", "convimage"} else "+".join(sorted(kinds))
+                dk = {"c": "complex", "f": "real"}.get(x.dtype.kind, "integer")
+                if not any(v["key"].startswith("C02:history:nonfinite-output") for v in viol):
+                    viol.append(dict(key="C02:history:nonfinite-output:%s-input:%s" % (dk, cause),
+                                     what="e%d = %s (%s) returns non-finite values for a finite %s input; history: %s"
+                                     % (ent.idx, ent.label, ent.op, x.dtype, "; ".join(log[-14:])),
+                                     observed=short(y), expected="finite values"))
+                return None
+            if not record:
+                return y
+            if ent.first[j] is None:
+                ent.first[j] = (snap(y), y.copy())
+            elif snap(y) != ent.first[j][0]:
+                V(ent, "changed-after-reuse", "applied again to the same %s input gives a different output than its first "
+                  "application (the object was used as an operand of later operator algebra in between)" % x.dtype,
+                  short(y), short(ent.first[j][1]))
+            if ent.exp[j] is not None:
+                ok, err, tol = _close(y, ent.exp[j])
+                if not ok:
+                    V(ent, "not-sum-of-parts", "output for the %s input differs from the same combination of its parts' outputs "
+                      "(max err %r, tol %r, output dtype %s, parts give %s)" % (x.dtype, err, tol, y.dtype, ent.exp[j].dtype),
+                      short(y), short(ent.exp[j]))
+            return y
+
+        def parts_out(i, j, x=None):
+            return run(ents[i], j, x=x, record=x is None)
+
+        def add(rec, xs_, exp, exact):
+            try:
+                op = _hist_make(rec, lambda i: ents[i].op)
+            except Exception:
+                return None
+            ent = _HEnt(len(ents), op, rec, _hist_spec(rec, ents), _hist_label(rec, ents), xs_, exact, exp)
+            # size of the tree (leaves, with multiplicity): re-used operands make it grow geometrically
+            if rec[0] == "c01":
+                ent.nleaves = sum(1 for _ in C1.leaves(rec[1]))
+            elif rec[0] == "extra":
+                ent.nleaves = 1
+            else:
+                ids = {"add": rec[1:3], "sub": rec[1:3], "mul": rec[1:3], "neg": rec[1:2], "conj": rec[1:2],
+                       "scal": rec[2:3], "rscal": rec[2:3]}.get(rec[0])
+                ids = list(ids) if ids is not None else list(rec[1] if rec[0] in ("addn", "compn") else rec[2])
+                ent.nleaves = sum(ents[i].nleaves for i in ids)
+            ents.append(ent)
+            log.append("e%d = %s" % (ent.idx, ent.label))
+            for j in range(len(xs_)):
+                run(ent, j)
+            # "exact" = integer arithmetic below 2^20 everywhere (exact in float32 and float64 storage alike)
+            if any(f is not None and f[1].size and float(np.max(np.abs(f[1]))) >= 2.0 ** 20 for f in ent.first):
+                ent.exact = False
+            return ent
+
+        # ---- the pool: operators ish -> osh
+        add(("c01", s0), xs, None, C1.is_exact(s0))
+        for _ in range(2):
+            try:
+                s1, _A = C1.same_shape_variant(rng, s0, A0, 1)
+            except Exception:
+                continue
+            add(("c01", s1), xs, None, C1.is_exact(s1))
+        for _ in range(2):
+            lab, mk = _hist_extra(rng, ish)
+            if square:
+                add(("extra", lab, mk), xs, None, False)
+            else:
+                e = add(("extra", lab, mk), xs, None, False)   # square on the input side, composed below
+                if e is not None:
+                    e.square_in = True
+        pool = [e.idx for e in ents if not getattr(e, "square_in", False)]
+        sq_in = [e.idx for e in ents if getattr(e, "square_in", False)]
+        for i in sq_in:   # A0 * extra : ish -> osh
+            exp = []
+            for j in range(len(xs)):
+                p = parts_out(i, j)
+                exp.append(None if p is None else parts_out(0, j, x=p))
+            e = add(("mul", 0, i), xs, exp, False)
+            if e is not None:
+                pool.append(e.idx)
+        if not pool:
+            return viol, dis, dict(skipped="empty pool")
+
+        def pick():
+            w = [3 if ents[i].rec[0] in ("add", "sub", "addn") else 2 if ents[i].rec[0] not in ("c01", "extra") else 1 for i in pool]
+            return rng.choices(pool, weights=w)[0]
+
+        def comb(fn, idxs, xs_of=None):
+            """expected outputs of a new object from its parts' outputs, per input"""
+            out = []
+            for j in range(len(xs)):
+                ps = [parts_out(i, j) if xs_of is None else parts_out(i, j, x=xs_of(k, j)) for k, i in enumerate(idxs)]
+                out.append(None if any(p is None for p in ps) else fn(ps, j))
+            return out
+
+        terminals = []
+        for ev in range(n_events):
+            r = rng.random()
+            if r < 0.5:
+                kinds = ["add", "add", "sub", "addn", "scal", "rscal", "neg", "conj"] + (["mul", "compn"] if square else [])
+                t = rng.choice(kinds)
+                if t in ("add", "sub"):
+                    a, b = pick(), pick()
+                    exp = comb((lambda ps, j: 0 + ps[0] + ps[1]) if t == "add" else (lambda ps, j: ps[0] - ps[1]), [a, b])
+                    e = add((t, a, b), xs, exp, ents[a].exact and ents[b].exact)
+                elif t == "addn":
+                    ids = [pick() for _ in range(rng.choice([2, 3, 3]))]
+                    exp = comb(lambda ps, j: sum(ps[1:], 0 + ps[0]), ids)
+                    e = add((t, ids), xs, exp, all(ents[i].exact for i in ids))
+                elif t in ("scal", "rscal"):
+                    a = pick()
+                    c = rng.choice([2, -1, 0.5, complex(rng.randint(-2, 2), rng.choice([-1, 1, 2])), complex(1, 2)])
+                    if t == "scal":      # c * A = Multiply(oshape, c) * A
+                        exp = comb(lambda ps, j: ps[0] * c, [a])
+                    else:                # A * c = A * Multiply(ishape, c)
+                        exp = comb(lambda ps, j: ps[0], [a], xs_of=lambda k, j: xs[j] * c)
+                    e = add((t, c, a), xs, exp, ents[a].exact)
+                elif t == "neg":
+                    a = pick()
+                    e = add((t, a), xs, comb(lambda ps, j: -1 * ps[0], [a]), ents[a].exact)
+                elif t == "conj":
+                    a = pick()
+                    exp = []
+                    for j in range(len(xs)):
+                        p = parts_out(a, j, x=np.conj(xs[j]))
+                        exp.append(None if p is None else np.conj(p))
+                    e = add((t, a), xs, exp, ents[a].exact)
+                elif t == "mul":
+                    a, b = pick(), pick()
+                    exp = []
+                    for j in range(len(xs)):
+                        p = parts_out(b, j)
+                        exp.append(None if p is None else parts_out(a, j, x=p))
+                    e = add((t, a, b), xs, exp, ents[a].exact and ents[b].exact)
+                else:
+                    ids = [pick() for _ in range(3)]
+                    exp = []
+                    for j in range(len(xs)):
+                        p = xs[j]
+                        for i in reversed(ids):
+                            p = None if p is None else parts_out(i, j, x=p)
+                        exp.append(p)
+                    e = add((t, ids), xs, exp, all(ents[i].exact for i in ids))
+                if e is not None:
+                    pool.append(e.idx)
+            elif r < 0.65:
+                t = rng.choice(["hstack", "vstack", "diag"])
+                ids = [pick() for _ in range(rng.choice([2, 2, 3]))]
+                ax = rng.choice([None, 0])
+                cat = (lambda arrs: np.concatenate([np.asarray(a).ravel() for a in arrs])) if ax is None else \
+                      (lambda arrs: np.concatenate([np.asarray(a) for a in arrs], axis=0))
+                part = lambda k, j: xs[j] * (k + 1)      # the k-th block of the stacked input
+                if t == "vstack":
+                    zs = xs
+                    exp = comb(lambda ps, j: cat(ps), ids)
+                else:
+                    zs = [cat([part(k, j) for k in range(len(ids))]) for j in range(len(xs))]
+                    if t == "hstack":
+                        exp = comb(lambda ps, j: sum(ps[1:], 0 + ps[0]), ids, xs_of=part)
+                    else:
+                        exp = comb(lambda ps, j: cat(ps), ids, xs_of=part)
+                e = add((t, ax, ids), zs, exp, all(ents[i].exact for i in ids))
+                if e is not None:
+                    terminals.append(e.idx)
+            elif r < 0.85:
+                i = rng.choice(pool + terminals)
+                j = rng.randrange(len(ents[i].xs))
+                log.append("apply e%d to x[%s]" % (i, ents[i].xs[j].dtype))
+                run(ents[i], j)
+            else:
+                i = rng.choice(pool + terminals)
+                log.append("take e%d.H, e%d.N and apply them" % (i, i))
+                try:
+                    AH, AN = ents[i].op.H, ents[i].op.N
+                    w = gint(rng, ents[i].op.oshape, np.complex128)
+                    AH(w)
+                    AN(ents[i].xs[0].astype(np.complex128))
+                    ents[i].op.H.H
+                except Exception:
+                    pass
+        # ---- final sweep: every object, every input, again; an equal object built from scratch
+        log.append("re-apply every object")
+        for ent in ents:
+            for j in range(len(ent.xs)):
+                run(ent, j)
+            ch = ent.captured.changed()
+            if ch:
+                V(ent, "mutates-captured", "captured array(s) %s changed during the history" % ch, ch, "unchanged")
+        if xsnap.changed():
+            V(ents[0], "mutates-input", "input array(s) %s changed during the history" % xsnap.changed(), None, "unchanged")
+
+        def rebuild(i):
+            return _hist_make(ents[i].rec, rebuild)
+        for ent in ents:
+            try:
+                twin = rebuild(ent.idx)
+            except Exception:
+                continue
+            for j in range(len(ent.xs)):
+                if ent.first[j] is None:
+                    continue
+                try:
+                    y = np.asarray(twin(ent.xs[j]))
+                except Exception:
+                    continue
+                if snap(y) != ent.first[j][0]:
+                    V(ent, "differs-from-equal-object", "an equal operator built from scratch (same tree, equal parameters) "
+                      "gives a different output for the %s input than this object gave first" % ent.xs[j].dtype,
+                      short(ent.first[j][1]), short(y))
+        # ---- linearity with complex a on real / integer inputs, on the objects with the longest history
+        a = complex(rng.randint(-3, 3), rng.choice([-2, -1, 1, 2, 3]))
+        for ent in [ents[i] for i in (pool + terminals)[-4:]]:
+            for j, x in enumerate(ent.xs):
+                if x.dtype.kind == "c" or ent.first[j] is None:
+                    continue
+                y2 = (np.roll(x.ravel(), 1).reshape(x.shape) * 2).astype(x.dtype)
+                comb_ = a * x + y2
+                l, r1, r2 = run(ent, j, x=comb_, record=False), ent.first[j][1], run(ent, j, x=y2, record=False)
+                if l is None or r2 is None:
+                    continue
+                rhs = a * r1.astype(np.complex128) + r2.astype(np.complex128)
+                lhs = l.astype(np.complex128)
+                if ent.exact:
+                    ok, err, tol = bool(np.array_equal(lhs, rhs)), None, 0.0
+                else:
+                    scale = max(1.0, float(np.max(np.abs(rhs))) if rhs.size else 1.0)
+                    tol = 2e-4 * scale * max(1, int(np.sqrt(lhs.size)))    # real input: single-precision paths (C05), see check_linop
+                    err = float(np.max(np.abs(lhs - rhs))) if lhs.size else 0.0
+                    ok = err <= tol
+                if not ok:
+                    V(ent, "nonlinear", "A(a x + y) != a A(x) + A(y) for a=%r and %s x, y (max err %r, tol %r)" % (a, x.dtype, err, tol),
+                      short(lhs), short(rhs))
+        # ---- the Lean denotation of (tree, input)
+        n_model = 0
+        if driver is not None:
+            # trees of up to 48 leaves are sent to the model (larger ones are still covered by oracles 1-5)
+            me = [e for e in ents if e.spec is not None and e.nleaves <= 48 and all(f is not None for f in e.first)]
+            lines = ["C02 mats %s" % " ".join(C1.rpn(e.spec)) for e in me]
+            for e, ln, rep in zip(me, lines, driver(lines)):
+                if rep == "err model-timeout":
+                    continue
+                m = C1.parse_reply(rep)
+                if not isinstance(m, dict):
+                    dis.append(dict(fn="tree:" + e.label, stream="tree-denotation", what="model reply %s for %s" % (rep[:80], ln[:200]), ir=rep[:80]))
+                    continue
+                n_model += 1
+                for j, x in enumerate(e.xs):
+                    want = (m["M"] @ x.astype(np.complex128).reshape(-1))
+                    got = e.first[j][1].astype(np.complex128).reshape(-1)
+                    if e.exact:
+                        ok = got.shape == want.shape and bool(np.array_equal(got, want))
+                    else:
+                        single = x.dtype.itemsize // (2 if x.dtype.kind == "c" else 1) < 8
+                        tl = (2e-4 if single else 1e-9) * max(1.0, float(np.max(np.abs(want))) if want.size else 1.0)
+                        ok = got.shape == want.shape and (got.size == 0 or float(np.max(np.abs(got - want))) <= tl)
+                    if not ok:
+                        dis.append(dict(fn="tree:" + e.label, stream="tree-denotation",
+                                        what="live object e%d after history [%s]: output for the %s input is not M x of the Lean denotation of its tree %s"
+                                        % (e.idx, "; ".join(log[-8:]), x.dtype, ln[:300]), ir=short(want)))
+                        break
+    shapes = sorted(set(e.rec[0] for e in ents))
+    return viol, dis, dict(cls="hist", objects=len(ents), events=n_events, model_compared=n_model, shapes=shapes,
+                           dtypes=dts, tree=ents[0].label if ents else None)
+
+
+# ================================================================================================
+# MRI recon apps (sigpy/mri/app.py): y, mps, weights, coord, z are never written (validates the IR's constructor table)
+# ================================================================================================
+RECONS = ["SenseRecon", "L1WaveletRecon", "TotalVariationRecon", "EspiritCalib", "JsenseRecon"]
+
+
+def check_recon(spec, claims=None):
+    import sigpy as sp
+    import sigpy.mri as mr
+    viol = []
+    rng = random.Random(spec["seed"])
+    kind = spec["app"]
+    with warnings.catch_warnings():
+        warnings.simplefilter("ignore")
+        nc = rng.randint(1, 3)
+        img = [rng.choice([4, 6, 8]) for _ in range(rng.choice([1, 2]) if kind != "EspiritCalib" else 2)]
+        named = []
+        try:
+            if kind in ("SenseRecon", "L1WaveletRecon", "TotalVariationRecon"):
+                mps = gint(rng, [nc] + img, np.complex128, -2, 2) + 1
+                noncart = rng.random() < 0.4
+                coord = _coord(rng, [rng.randint(4, 10)], img, half=False) if noncart else None
+                ksh = [nc] + (img if coord is None else list(coord.shape[:-1]))
+                y = _variants(rng, gint(rng, ksh, np.complex128))
+                weights = None if rng.random() < 0.5 else gint(rng, ksh[1:], np.float64, 0, 2)
+                kw = dict(coord=coord, weights=weights, max_iter=rng.randint(1, 3), show_pbar=False)
+                if rng.random() < 0.5 and kind == "SenseRecon":
+                    kw["z"] = gint(rng, img, np.complex128)
+                    kw["lamda"] = 0.5
+                if rng.random() < 0.4:
+                    kw["x"] = gint(rng, img, np.complex128)
+                if kind == "SenseRecon":
+                    kw.setdefault("lamda", rng.choice([0, 0.1]))
+                    kw["solver"] = rng.choice([None, "ConjugateGradient", "GradientMethod", "ADMM"])
+                    if kw["solver"] == "ADMM":
+                        kw["rho"] = 1.0
+                    mk = lambda: mr.app.SenseRecon(y, mps, **kw)
+                elif kind == "L1WaveletRecon":
+                    kw["max_power_iter"] = 2
+                    mk = lambda: mr.app.L1WaveletRecon(y, mps, 0.01, wave_name=rng.choice(["haar", "db2"]), **kw)
+                else:
+                    kw["max_power_iter"] = 2
+                    mk = lambda: mr.app.TotalVariationRecon(y, mps, 0.01, **kw)
+                named = [("y", y), ("mps", mps)] + [(n, kw[n]) for n in ("coord", "weights", "z") if kw.get(n) is not None]
+                if y.base is not None:
+                    named.append(("y.base", y.base))
+            elif kind == "EspiritCalib":
+                ksp = _variants(rng, gint(rng, [nc] + img, np.complex128))
+                mk = lambda: mr.app.EspiritCalib(ksp, calib_width=4, kernel_width=2, max_iter=3, show_pbar=False)
+                named = [("ksp", ksp)]
+            else:
+                noncart = rng.random() < 0.3
+                coord = _coord(rng, [rng.randint(6, 12)], img, half=False) if noncart else None
+                ksh = [nc] + (img if coord is None else list(coord.shape[:-1]))
+                y = gint(rng, ksh, np.complex128)
+                weights = None if rng.random() < 0.5 else gint(rng, ksh[1:], np.float64, 0, 2) + 1
+                mk = lambda: mr.app.JsenseRecon(y, mps_ker_width=2, ksp_calib_width=4, lamda=0.1, coord=coord, weights=weights,
+                                                max_iter=1, max_inner_iter=2, show_pbar=False)
+                named = [("y", y)] + [(n, v) for n, v in (("coord", coord), ("weights", weights)) if v is not None]
+            s = Snapshot(named)
+            app = mk()
+            ch0 = s.changed()
+            app.run()
+        except Exception as e:
+            return viol, [], dict(skipped="%r" % (e,))
+        ch = ch0 or s.changed()
+        if ch:
+            for c in sorted(set(ch)):
+                viol.append(dict(key="C02:%s:mutates-%s" % (kind, c.split(".")[0]),
+                                 what="%s wrote into %s (%s)" % (kind, ch, "in the constructor" if ch0 else "in run()"),
+                                 observed=ch, expected="data arrays unchanged"))
+    return viol, [], dict(cls=kind)
+
+
+CHECKERS = {"recon": check_recon, "linop": check_linop, "prox": check_prox, "fn": check_fn, "lls": check_lls, "hist": check_hist}
+
+
+def run_spec(spec, claims=None, driver=None):
+    if spec["kind"] == "hist":
+        return check_hist(spec, claims, driver)
     return CHECKERS[spec["kind"]](spec, claims)
 
 
 # ================================================================================================
 # stream
 # ================================================================================================
-def gen_specs(rng, n_per_op, n_per_fn, n_per_prox, n_lls):
-    specs = []
+def gen_hist_specs(rng, n):
+    return [dict(kind="hist", k=rng.choice([2, 3, 3, 4]), seed=rng.randrange(1 << 30), n_events=rng.choice([6, 9, 12, 16]))
+            for _ in range(n)]
+
+
+def gen_specs(rng, n_per_op, n_per_fn, n_per_prox, n_lls, n_hist=0):
+    specs = gen_hist_specs(rng, n_hist)
     for op in ALL_OPS:
         for j in range(n_per_op):
             specs.append(dict(kind="linop", op=op, k=rng.choice([2, 3, 3, 4, 5]), seed=rng.randrange(1 << 30),
@@ -1167,6 +1773,8 @@ def gen_specs(rng, n_per_op, n_per_fn, n_per_prox, n_lls):
         specs.append(dict(kind="lls", k=rng.choice([2, 3]), seed=rng.randrange(1 << 30),
                           A=["Identity", "Reshape", "Multiply1", "Multiply", "Flip"][j % 5],
                           solver=["ConjugateGradient", "ADMM", "GradientMethod", "PrimalDualHybridGradient"][(j // 5) % 4]))
+    for j in range(n_lls // 2):
+        specs.append(dict(kind="recon", app=RECONS[j % len(RECONS)], seed=rng.randrange(1 << 30)))
     return specs
 
 
@@ -1190,7 +1798,11 @@ def load_claims(ctx):
 
 def correspond(ctx):
     ctx.rule = ("cases = (kind, class/function, size scale k, seed, dtype, contiguity); the seed deterministically draws "
-                "valid constructor parameters, captured arrays and Gaussian-integer inputs; distinct by the whole spec; "
+                "valid constructor parameters, captured arrays and Gaussian-integer inputs; kind=hist: the seed draws a tree "
+                "(C01 generator, depth k-2; 20% a small tree around an FFT/NUFFT/wavelet/convolution/MRI leaf), same-shape "
+                "variants, inexact / complex-valued extras, and n_events events of operator algebra on the pool of LIVE objects "
+                "(operands re-used), applications and .H/.N; inputs of dtypes complex128, float64, float32, int64 (integer only "
+                "for trees of numpy-indexing leaves), complex64; distinct by the whole spec; "
                 "non-trivial = the object was built and applied (skipped builds are not counted)")
     claims = load_claims(ctx)
     ctx.oblige("correspondence:C02.driver-claims", "correspondence", claims is not None and len(claims) > 50,
@@ -1201,7 +1813,12 @@ def correspond(ctx):
     bad = 0
     if g is not None:
         for k in gen_c02.ok_keys(g):
-            if k in claims and not claims[k]["clean"]:
+            al = gen_c02.allowed_slots(g, k)
+            if k in claims and al is not None:
+                if not claims[k]["ok"] or not set(claims[k]["mut"]) <= {"F"} | {a[1] for a in al}:
+                    bad += 1
+                    ctx.disagree("verdict", dict(fn=k), "translator expects writes within %s" % [a[2] for a in al], claims[k])
+            elif k in claims and not claims[k]["clean"]:
                 bad += 1
                 ctx.disagree("verdict", dict(fn=k), "translator expects clean", claims[k])
             py = g.done[k]["summary"]
@@ -1210,23 +1827,36 @@ def correspond(ctx):
                 ctx.disagree("mirror", dict(fn=k), py, claims[k])
     ctx.oblige("correspondence:C02.verdicts", "correspondence", bad == 0, "%d functions whose compiled analysis differs" % bad)
     q = ctx.tier == "quick"
-    specs = gen_specs(ctx.rng, 15 if q else 150, 10 if q else 100, 10 if q else 100, 40 if q else 200)
-    pend, nbad, skipped = [], 0, 0
+    specs = gen_specs(ctx.rng, 15 if q else 150, 10 if q else 100, 10 if q else 100, 40 if q else 200, 60 if q else 500)
+    pend, nbad, skipped, ntree, nmodel = [], 0, 0, 0, 0
+    drv = lambda lines: ctx.driver_guarded(lines)
     for sp_ in specs:
-        viol, dis, info = run_spec(sp_, claims)
+        viol, dis, info = run_spec(sp_, claims, driver=drv)
         if "skipped" in info:
             skipped += 1
             ctx.count("skipped:" + sp_["kind"])
             continue
         ctx.case(json.dumps(sp_, sort_keys=True), sample=dict(spec=sp_, info=info) if ctx.evaluations % 53 == 0 else None)
-        ctx.count("%s:%s" % (sp_["kind"], sp_.get("op") or sp_.get("fn") or sp_.get("prox") or sp_.get("A")))
+        ctx.count("%s:%s" % (sp_["kind"], sp_.get("op") or sp_.get("fn") or sp_.get("prox") or sp_.get("A") or sp_.get("app")))
+        if sp_["kind"] == "hist":
+            nmodel += info.get("model_compared", 0)
+            for t in info.get("shapes", []):
+                ctx.count("hist-node:" + t)
+            ctx.count("hist-objects", info.get("objects", 0))
         for d in dis:
+            if d.get("stream") == "tree-denotation":
+                ntree += 1
+                ctx.disagree("tree-denotation", dict(spec=sp_, what=d["what"], fn=d["fn"]), "output of the live object", d["ir"])
+                continue
             nbad += 1
             ctx.disagree("effects", dict(spec=sp_, what=d["what"], fn=d["fn"]), "observed on the real code", d["ir"])
         if viol:
             pend.append((sp_, viol))
     ctx.traces = ctx.evaluations
     ctx._c02_pending = pend
+    ctx.oblige("correspondence:C02.tree-denotation", "correspondence", ntree == 0 and nmodel > 0,
+               "%d live operator objects (after histories of operator algebra, for inputs of every dtype) whose output is not "
+               "M x for the matrix of the Lean denotation of their tree; %d objects compared" % (ntree, nmodel))
     ctx.oblige("correspondence:C02.effects", "correspondence", nbad == 0,
                "%d observations (memory sharing / writes) not covered by the IR's claims; %d cases skipped" % (nbad, skipped))
     ctx.oblige("correspondence:C02.coverage", "correspondence", skipped <= 0.2 * max(1, len(specs)),
@@ -1236,12 +1866,31 @@ def correspond(ctx):
         "child operators / proxes called from composite operators obey the contract proved for every class (assume-guarantee)",
         "CuPy / GPU arms (`if xp == np` else-branches) are out of scope",
         "numba kernels write only through their first parameter (checked syntactically on every run)",
+        "apps: the algorithm constructors (ConjugateGradient, GradientMethod, PrimalDualHybridGradient, ADMM, PowerMethod, "
+        "LinearLeastSquares) keep references to their arguments and write, in their later updates, only the in/out arguments "
+        "listed in gen_c02.ALG_WRITES (x, u, v); Linop / Prox constructors only store references; no class of linop.py defines an "
+        "in-place operator method (checked syntactically on every run); validated by check_lls (byte snapshots of y, z and every "
+        "array captured by A around construction and run())",
+        "the matrix the driver returns for `C02 mats <tree>` is C01.denote of the tree (the definition tree_linear / "
+        "algebra_history_deterministic are about); live objects are compared with it after histories of operator algebra",
     ]
 
 
 def shrink(spec):
     """smaller scale / other seeds with the same kind of case; returns the smallest failing spec found"""
     best = spec
+    if "k" not in spec:      # recon cases have no size scale: the case itself is already small
+        return best
+    if spec["kind"] == "hist":
+        for ne in (2, 3, 5, 8):
+            if ne >= spec.get("n_events", 10):
+                break
+            for s in range(30):
+                cand = dict(spec, k=min(spec["k"], 3), n_events=ne, seed=spec["seed"] % 1000 + s)
+                viol, _, info = run_spec(cand)
+                if viol:
+                    return cand
+        return best
     for k in (2, 3):
         if k >= best["k"]:
             break
@@ -1280,7 +1929,7 @@ def search(ctx, budget):
         report(ctx, small if v2 else spec, v2 or viol, "correspondence-stream")
     # 2. budgeted search with more parameters
     n = max(1, int(4 * budget))
-    specs = gen_specs(rng, n, n, n, int(10 * budget))
+    specs = gen_specs(rng, n, n, n, int(10 * budget), int(40 * budget))
     if ctx.broken:
         # obligations that no longer check point at functions: put most of the budget there
         names = " ".join(o["name"] + " " + o["detail"] for o in ctx.broken)
@@ -1293,6 +1942,12 @@ def search(ctx, budget):
             specs += [dict(kind="linop", op=o, k=rng.choice([2, 3, 4]), seed=rng.randrange(1 << 30), dtype="complex128", noncontig=rng.random() < 0.3, real_xy=False) for _ in range(60)]
         for p in focus_px:
             specs += [dict(kind="prox", prox=p, k=rng.choice([2, 3]), seed=rng.randrange(1 << 30), dtype="complex128") for _ in range(60)]
+        if "prog_app_LinearLeastSquares" in names:
+            specs += [dict(kind="lls", k=rng.choice([2, 3]), seed=rng.randrange(1 << 30),
+                           A=["Identity", "Reshape", "Multiply1", "Multiply", "Flip"][j % 5],
+                           solver=["ConjugateGradient", "ADMM", "GradientMethod", "PrimalDualHybridGradient"][(j // 5) % 4]) for j in range(120)]
+        if "prog_mri_app" in names:
+            specs += [dict(kind="recon", app=RECONS[j % len(RECONS)], seed=rng.randrange(1 << 30)) for j in range(100)]
     for spec in specs:
         viol, _, info = run_spec(spec)
         if "skipped" in info:
